@@ -17,7 +17,10 @@ VARIABLES desc, term, dense, pc
 vars == <<desc, term, dense, pc>>
 N == 4
 Cls == <<"Dense", "Diag", "ConstDiag", "Identity", "Toeplitz", "Chol", "Kron", "KronDiag", "KronAddedDiag", "SumKron", "AddedDiag",
-         "LRRAddedDiag", "Sum", "PsdSum", "ConstMul", "BlockDiag", "BlockInter", "BatchRepeat", "Tri", "AddedDiagI", "LRRAddedDiagI", "User">>
+         "LRRAddedDiag", "Sum", "PsdSum", "ConstMul", "BlockDiag", "BlockInter", "BatchRepeat", "Tri", "AddedDiagI", "LRRAddedDiagI", "User",
+         "AddedDiagRootConst", "AddedDiagBig", "DenseBig", "KronCholU", "BlockDiagCholU">>
+\* matrix size per class: the "Big" families are large enough for CG / Lanczos to need more than 10 iterations
+NOf(c) == IF c = "AddedDiagBig" THEN 24 ELSE IF c = "DenseBig" THEN 12 ELSE 4
 Batches == << <<>>, <<2>> >>
 DepthOf(c) == IF c \in G_LeafClasses THEN 0 ELSE 1
 
@@ -38,40 +41,47 @@ LogdetPath(cls, n, c) ==
 Init ==
   /\ \E ci \in 1..Len(Cls), bi \in 1..Len(Batches), c \in Cfgs :
        /\ ((ci * 7 + bi + CfgId(c)) % NParts = Part)
-       /\ (Tier = "quick" => ((ci + bi + CfgId(c)) % 4 = 0 \/ CfgId(c) \in {0, 63 - 32, 3 + 4}))
+       /\ (Tier = "quick" => ((ci + bi + CfgId(c)) % 4 = 0 \/ CfgId(c) \in {0, 63 - 32, 3 + 4}
+                              \/ (Cls[ci] \in {"AddedDiagRootConst", "AddedDiagBig", "DenseBig", "KronCholU", "BlockDiagCholU"} /\ CfgId(c) % 2 = 1 /\ ~c.memory_efficient)))
        /\ desc = [cls |-> Cls[ci], b |-> Batches[bi], cfg |-> c, cfgid |-> CfgId(c), id |-> (ci * 4 + bi) * 64 + CfgId(c),
                   dt |-> IF (ci + CfgId(c)) % 3 = 0 THEN "f32" ELSE "f64", seed |-> ci * 13 + bi * 5,
-                  solve_path |-> SolvePath(Cls[ci], N, c), logdet_path |-> LogdetPath(Cls[ci], N, c)]
+                  n |-> NOf(Cls[ci]),
+                  \* rank bound of the pivoted-Cholesky preconditioner (0: library default); small for the large family so that the
+                  \* preconditioned iteration still needs more than the 10 mandatory steps
+                  prank |-> IF Cls[ci] = "AddedDiagBig" THEN 3 ELSE 0,
+                  solve_path |-> SolvePath(Cls[ci], NOf(Cls[ci]), c), logdet_path |-> LogdetPath(Cls[ci], NOf(Cls[ci]), c)]
   /\ term = <<>> /\ dense = <<>> /\ pc = 0
 
 Construct ==
   /\ pc = 0 /\ pc' = 1
-  /\ term' = G_Term(desc.cls, N, N, desc.b, desc.seed, DepthOf(desc.cls), 1)
+  /\ term' = G_Term(desc.cls, desc.n, desc.n, desc.b, desc.seed, DepthOf(desc.cls), 1)
   /\ dense' = Op_Denote(term')
   /\ UNCHANGED desc
 
 \* right-hand sides
-Bvec == G_Int(<<N>>, desc.seed + 61)
-Bmat == G_Int(desc.b \o <<N, 2>>, desc.seed + 63)
-Bbc == G_Int(<<3>> \o [i \in 1..Len(desc.b) |-> 1] \o <<N, 1>>, desc.seed + 65)        \* extra leading batch dim, broadcasting
-Lmat == G_Int(desc.b \o <<2, N>>, desc.seed + 67)
+Bvec == G_Int(<<desc.n>>, desc.seed + 61)
+Bmat == G_Int(desc.b \o <<desc.n, 2>>, desc.seed + 63)
+Bbc == G_Int(<<3>> \o [i \in 1..Len(desc.b) |-> 1] \o <<desc.n, 1>>, desc.seed + 65)        \* extra leading batch dim, broadcasting
+Lmat == G_Int(desc.b \o <<2, desc.n>>, desc.seed + 67)
 Unsq(v) == T_Unsqueeze(v, -1)
 
 Emit ==
   /\ pc = 1 /\ pc' = 2
   /\ LET A == dense
-         dets == R_Dets(A)
-         LX == LET X == R_Solve(A, Bmat) IN X     \* L A^{-1} B is formed by the harness from the exact A^{-1}B
-     IN PrintT(ToJson([chk |-> "E2", desc |-> desc, path |-> Op_Path(term), term |-> term, dense |-> A,
-          rhs |-> [vec |-> Bvec, mat |-> Bmat, bc |-> Bbc, lhs |-> Lmat],
-          solve |-> [vec |-> R_Solve(A, Unsq(Bvec)), mat |-> R_Solve(A, Bmat), bc |-> R_Solve(A, Bbc)],
-          dets |-> dets,
-          inv_quad |-> [mat |-> R_InvQuad(A, Bmat), vec |-> R_InvQuad(A, Unsq(Bvec))]]))
+     IN IF desc.n <= 4
+        THEN PrintT(ToJson([chk |-> "E2", desc |-> desc, path |-> Op_Path(term), term |-> term, dense |-> A,
+               rhs |-> [vec |-> Bvec, mat |-> Bmat, bc |-> Bbc, lhs |-> Lmat],
+               solve |-> [vec |-> R_Solve(A, Unsq(Bvec)), mat |-> R_Solve(A, Bmat), bc |-> R_Solve(A, Bbc)],
+               dets |-> R_Dets(A),
+               inv_quad |-> [mat |-> R_InvQuad(A, Bmat), vec |-> R_InvQuad(A, Unsq(Bvec))]]))
+        \* larger instances: the exact integer matrix and right-hand sides are given; the projection solves them densely in float64
+        ELSE PrintT(ToJson([chk |-> "E2", desc |-> desc, path |-> Op_Path(term), term |-> term, dense |-> A,
+               rhs |-> [vec |-> Bvec, mat |-> Bmat, bc |-> Bbc, lhs |-> Lmat], big |-> TRUE]))
   /\ UNCHANGED <<desc, term, dense>>
 Next == Construct \/ Emit
 Spec == Init /\ [][Next]_vars
 
 \* the generated instances are symmetric positive definite (so that every query is defined): checked on every state
-InvPD == (pc >= 1 /\ desc.cls # "Tri") => (T_IsSymmetric(dense) /\ \A k \in 1..T_Prod(T_Batch(dense.shape)) :
+InvPD == (pc >= 1 /\ desc.cls # "Tri" /\ desc.n <= 4) => (T_IsSymmetric(dense) /\ \A k \in 1..T_Prod(T_Batch(dense.shape)) :
                         R_IsPD(R_Rows(dense, T_Unravel(k - 1, T_Batch(dense.shape)))))
 =============================================================================
